@@ -489,6 +489,12 @@ fn write_bytes(dbg: &debugger::Debugger, addr: usize, bytes: &[u8]) -> anyhow::R
     Ok(())
 }
 
+/// Verification hook: the crate-private `write_bytes` as used by writeMemory / setVariable.
+#[cfg(feature = "verif")]
+pub fn verif_write_bytes(dbg: &debugger::Debugger, addr: usize, bytes: &[u8]) -> anyhow::Result<()> {
+    write_bytes(dbg, addr, bytes)
+}
+
 pub fn render_value_to_string(v: &debugger::variable::value::Value) -> String {
     use debugger::variable::render::RenderValue;
     match v.value_layout() {
